@@ -1,6 +1,6 @@
 (* Proofs for C17: the memo is transparent; copied defaults are never changed. *)
 From Coq Require Import ZArith List String Bool Lia.
-Require Import Rig.Model.Base Rig.Model.LibState.
+Require Import Rig.Model.Base Rig.Model.Geometry Rig.Model.LibState.
 Import ListNotations.
 Open Scope Z_scope.
 
@@ -70,6 +70,43 @@ Proof. apply memo_call_result. apply memo_after_inv. Qed.
 Lemma default_untouched {S} (default : S) (arg : option S) (write : S -> S) :
   snd (call_with_default default arg write) = default.
 Proof. reflexivity. Qed.
+
+(* ---- defaults as heap cells ---- *)
+Lemma default_after_copies {S} (history : list ((S -> S) * option S)) (cell0 : S) :
+  default_after Copies history cell0 = cell0.
+Proof.
+  unfold default_after. induction history as [|[w a] hs IH]; cbn [fold_left]; [reflexivity|].
+  replace (snd (default_call Copies (fst (w, a)) cell0 (snd (w, a)))) with cell0; [exact IH|].
+  cbn [fst snd]. destruct a; reflexivity.
+Qed.
+
+(* under the copying discipline a call's outcome does not depend on what was called before, and the default
+   object is never changed *)
+Lemma copies_history_independent {S} (history : list ((S -> S) * option S)) (cell0 : S) (w : S -> S) (arg : option S) :
+  default_call Copies w (default_after Copies history cell0) arg = default_call Copies w cell0 arg.
+Proof. rewrite default_after_copies. reflexivity. Qed.
+
+(* under the aliasing discipline it does: an earlier call that relied on the default leaks its write into a later
+   one (the shape of boot(sv_overrides=dict()) as found: options of one boot appear in the next) *)
+Lemma aliases_history_dependent :
+  exists (history : list ((Z -> Z) * option Z)) (cell0 : Z) (w : Z -> Z),
+    fst (default_call Aliases w (default_after Aliases history cell0) None)
+    <> fst (default_call Aliases w cell0 None)
+    /\ default_after Aliases history cell0 <> cell0.
+Proof.
+  exists [((fun x => x + 1), None)], 0, (fun x => x + 1). split; vm_compute; discriminate.
+Qed.
+
+(* with an explicit argument neither discipline touches the default object *)
+Lemma explicit_argument_never_touches_default {S} (d : discipline) (w : S -> S) (cell a : S) :
+  snd (default_call d w cell (Some a)) = cell.
+Proof. destruct d; reflexivity. Qed.
+
+(* the router's memo: after any history of radii, asking for radius r yields geometry's concentric_hexagons r (0,0),
+   which is the expression Model/Route.v evaluates directly (so the memo can be dropped from the router model) *)
+Lemma ner_memo_transparent (history : list Z) (r : Z) :
+  fst (ner_memo_call (memo_after (fun r => concentric_hexagons r (0, 0)) history) r) = concentric_hexagons r (0, 0).
+Proof. unfold ner_memo_call. exact (memo_returns_f (fun r0 => concentric_hexagons r0 (0, 0)) history r). Qed.
 
 Lemma accounted_consistent : forallb class_consistent accounted = true.
 Proof. vm_compute. reflexivity. Qed.
